@@ -83,7 +83,7 @@ FILTER_TEXT = [j("_filter:" + n) for n in ("LDAPFilter.from_string", "_unpack_fi
 VALUE_DECODERS = [j("_authentication:SimpleCredential.unpack"), j("_authentication:SaslCredential.unpack"), j("_authentication:AuthenticationCredential.unpack"),
                   j("_filter:_unpack_filter_attribute_value_assertion"), j("_controls:unpack_ldap_control")] + \
                  [j("_controls:%s.unpack" % n) for n in ("LDAPControl", "PagedResultControl", "ShowDeactivatedLinkControl", "ShowDeletedControl")] + \
-                 [j("_filter:%s.unpack" % n) for n in ("FilterEquality", "FilterGreaterOrEqual", "FilterLessOrEqual", "FilterApproxMatch", "FilterPresent", "FilterExtensibleMatch", "FilterSubstrings", "LDAPFilter")] + \
+                 [j("_filter:%s.unpack" % n) for n in ("FilterEquality", "FilterGreaterOrEqual", "FilterLessOrEqual", "FilterApproxMatch", "FilterPresent", "FilterExtensibleMatch", "FilterSubstrings", "FilterNot", "LDAPFilter")] + \
                  [j("_messages:_unpack_%s" % n) for n in ("bind_request", "search_request", "extended_request", "ldap_result", "search_result_done", "bind_response", "extended_response", "search_result_reference", "partial_attribute", "search_result_entry")] + \
                  [j("specs.ldapmsg:" + n) for n in ("lemma_nth_rest_step", "lemma_rt_extended_request")] + DECODE_TREE[-6:]
 # C01: what the encoder's relation means for the decoder's postcondition (lemmas), and the round trip theorems that take both
